@@ -9,6 +9,8 @@
 (*   "prefix_kept"     C06 (c): fields ns (tolerant result), tn (top-level nodes    *)
 (*                     of the strict parse of the maximal strictly parseable        *)
 (*                     prefix ending at or before the first error)                  *)
+(*   "completion_kept" C06 (c): fields ns (tolerant result of s), cn (strict tree of s    *)
+(*                     completed with closing delimiters), slen = Len(s)                   *)
 (*   "same_tree"       C06 (b): fields ns, other                                    *)
 (*   "inert"           C13: the tree of the strictly parsed encoder output has no       *)
 (*                     comment, environment or math node                             *)
@@ -31,6 +33,8 @@ Clauses ==
            [Nesting |-> SeqCover(Tr.s, Tr.ns, 1, 0, Len(Tr.s), FALSE)]
       [] Tr.kind = "prefix_kept" ->
            [PrefixKept |-> PrefixKept(Tr.ns, Tr.tn)]
+      [] Tr.kind = "completion_kept" ->
+           [CompletionKept |-> CompletionKept(Tr.ns, Tr.cn, Tr.slen)]
       [] Tr.kind = "same_tree" ->
            [SameTree |-> Tr.ns = Tr.other]
       [] Tr.kind = "inert" ->
